@@ -28,6 +28,8 @@ type SeqReply struct {
 // with well-formed replies (fresh non-empty batch, strictly increasing timestamp) unless
 // Idle is set (then: empty batches with increasing timestamps).
 type SeqDouble struct {
+	// SubmitDelay: SubmitBatchTxs takes this long before the batch is in the sequencing layer
+	SubmitDelay time.Duration
 	// KVFormat: fresh transactions are "key=value" (the node runs on the reference key-value execution layer)
 	KVFormat bool
 	mu     sync.Mutex
@@ -60,6 +62,13 @@ func (s *SeqDouble) SubmitBatchTxs(ctx context.Context, req coresequencer.Submit
 	var txs [][]byte
 	if req.Batch != nil {
 		txs = req.Batch.Transactions
+	}
+	if d := s.SubmitDelay; d > 0 { // a sequencing layer that takes its time to acknowledge (a remote one)
+		select {
+		case <-time.After(d):
+		case <-ctx.Done():
+			return nil, ctx.Err()
+		}
 	}
 	if s.Inner != nil {
 		res, err := s.Inner.SubmitBatchTxs(ctx, req)
